@@ -321,6 +321,30 @@ func oneOf(v interface{}) interface{} {
 		return &One[[]bool]{x}
 	case [3]int:
 		return &One[[3]int]{x}
+	case NI8:
+		return &One[NI8]{x}
+	case NI16:
+		return &One[NI16]{x}
+	case NI32:
+		return &One[NI32]{x}
+	case NI64:
+		return &One[NI64]{x}
+	case NI:
+		return &One[NI]{x}
+	case NU8:
+		return &One[NU8]{x}
+	case NU16:
+		return &One[NU16]{x}
+	case NU32:
+		return &One[NU32]{x}
+	case NU64:
+		return &One[NU64]{x}
+	case NU:
+		return &One[NU]{x}
+	case NF32:
+		return &One[NF32]{x}
+	case NF64:
+		return &One[NF64]{x}
 	}
 	panic(fmt.Sprintf("oneOf: %T", v))
 }
